@@ -377,6 +377,18 @@ func (d *dhcpRun) history() {
 			// the server goes down and comes back from its lease file: handler only (P even) or the whole process, i.e. a new
 			// session with an empty host table and no capture flags (P odd). Offers are forgotten, acknowledged leases are not.
 			h.Close()
+			routerMoved := false
+			if o.P == 3 && (step+int(d.idx))%2 == 0 {
+				// ... and meanwhile the router was replaced: the new one sits on an address out of the pool, one that a client
+				// holds a lease for if there is such a lease. The changed gateway resets the lease table (by design, like any
+				// change of the subnet configuration); the address is the router's now and must not be handed out.
+				for _, x := range cls {
+					if x.acked.IsValid() && nic.HomeLAN.Contains(x.acked) && x.acked != nic.HostIP {
+						nic.RouterIP, routerMoved = x.acked, true
+						break
+					}
+				}
+			}
 			if o.P%2 == 1 {
 				s.Close()
 				synctest.Wait()
@@ -404,6 +416,18 @@ func (d *dhcpRun) history() {
 				}
 				m.Cfg.DNS = dns
 				c.Obs("restarts_with_new_dns", 1)
+			}
+			if routerMoved {
+				if !d.dns.IsValid() {
+					dns = nic.RouterIP
+					m.Cfg.DNS = dns
+				}
+				m.Cfg.RouterIP = nic.RouterIP
+				m.Forget()
+				for _, x := range cls {
+					x.offered, x.acked = netip.Addr{}, netip.Addr{}
+				}
+				c.Obs("restarts_with_router_on_a_leased_address", 1)
 			}
 			if h, err = (dhcp4_spoofer.Config{Mode: d.mode, NetfilterIP: d.net.netfilter, DNSServer: d.dns, LeaseFilename: file}).New(s); err != nil {
 				c.ViolP("C18", "lease:restart:construct-error", err.Error(), cs(step))
